@@ -17,6 +17,11 @@
 (*    H(V) = <<"V", w, val>>   H(S) = <<"S", key, H(child)>>               *)
 (*    H(B) = <<"B", sum of claimed child weights, child hashes>>           *)
 (* i.e. the branch hash binds the SUM of the child weights, not each one.  *)
+(* The real hashes are sha3(weight || payload) for values AND branches     *)
+(* (payload = value bytes resp. the 16 child hashes): there is no kind     *)
+(* tag.  The terms above are tagged; the missing tag is modelled by the    *)
+(* field `pre` a value record may carry: a value record whose bytes spell  *)
+(* the preimage of a branch hashes to that branch's hash (action Imitate). *)
 (*                                                                         *)
 (* Verify is a transcription of core/util/wmpt/proof.go:verifyProof:       *)
 (* navigation by the weights claimed inside the proof, re-hash of the path.*)
@@ -29,6 +34,7 @@ EXTENDS Naturals, Sequences, FiniteSets, TLC, Json
 CONSTANTS Tries,          \* set of tries: functions <<n0, n1>> -> [v, w]
           MaxEdits,
           AllowReweight,  \* adversary may move weight between siblings keeping the sum
+          AllowImitate,   \* adversary may pass a node's hash preimage off as a value record (hashes carry no kind tag)
           GenMode
 
 NoHash == <<"none">>                         \* hash slot of an absent child
@@ -85,7 +91,9 @@ RECURSIVE Ver(_, _, _), VerB(_, _, _, _, _)
 Ver(p, b, i) ==
   IF i > Len(p) THEN Fail
   ELSE LET r == p[i] IN
-       CASE r.t = "V" -> IF b > r.w THEN Fail ELSE [ok |-> TRUE, h |-> <<"V", r.w, r.val>>, val |-> r.val, nxt |-> i + 1]
+       CASE r.t = "V" -> IF b > r.w THEN Fail
+                         ELSE [ok |-> TRUE, h |-> IF "pre" \in DOMAIN r /\ r.pre[2] = r.w THEN r.pre ELSE <<"V", r.w, r.val>>,
+                               val |-> r.val, nxt |-> i + 1]
          [] r.t = "S" -> IF b > r.w THEN Fail
                          ELSE LET s == Ver(p, b, i + 1) IN
                               IF ~s.ok THEN Fail ELSE [ok |-> TRUE, h |-> <<"S", r.key, s.h>>, val |-> s.val, nxt |-> s.nxt]
@@ -156,7 +164,17 @@ Splice ==
      /\ Edit([e |-> "splice", i |-> i, j |-> b2, k |-> i2, d |-> 0],
              SubSeq(proof, 1, i - 1) \o SubSeq(Honest(trie, b2), i2, Len(Honest(trie, b2))))
 
-PNext == Reweight \/ SwapSiblings \/ SetWeight \/ SetValue \/ Drop \/ Dup \/ Splice
+\* replace branch record i and everything after it by a value record spelling the branch's hash preimage
+Imitate ==
+  /\ AllowImitate
+  /\ \E i \in 1..Len(proof) :
+        /\ IsB(i)
+        /\ Edit([e |-> "imitate", i |-> i, j |-> 0, k |-> 0, d |-> 0],
+                SubSeq(proof, 1, i - 1) \o
+                <<[t |-> "V", val |-> "#preimage", w |-> KidsSum(proof[i].kids, Nibs),
+                   pre |-> <<"B", KidsSum(proof[i].kids, Nibs), [m \in Nibs |-> proof[i].kids[m].h]>>]>>)
+
+PNext == Imitate \/ Reweight \/ SwapSiblings \/ SetWeight \/ SetValue \/ Drop \/ Dup \/ Splice
 PSpec == PInit /\ [][PNext]_pvars
 
 ---------------------------------------------------------------------------
